@@ -3,6 +3,8 @@ CONSTANTS
   MaxCands = 3
   NFill = 3
   Layouts = {"one", "two-first", "two-second"}
+  MaxAttempts = 3
+  RetryRaw = FALSE
 SPECIFICATION Spec
 INVARIANTS ImplConforms ImplNoLocalHostLeft ImplIdempotent KeepLocalConforms ContractBites RangesAreMasks
 CHECK_DEADLOCK FALSE
